@@ -156,7 +156,7 @@ pub fn blocked<T: Payload + 'static>(
             assert!(r.code == R_OK, "C06: blocked send not completed although a receiver took a value");
             // FIFO: the buffered value comes out before the blocked sender's value
             assert!(
-                cx.order[0] == if prefilled { 3 } else { 1 },
+                !T::TAGGED || cx.order[0] == if prefilled { 3 } else { 1 },
                 "C02: receive did not obtain the oldest value"
             );
         } else if peer_killed {
@@ -166,7 +166,7 @@ pub fn blocked<T: Payload + 'static>(
         }
     } else {
         if peer_moved && pc == SENDERISH {
-            assert!(r.code == R_OK && r.tag == 2, "C06: blocked receive not completed by an arriving send");
+            assert!(r.code == R_OK && (!T::TAGGED || r.tag == 2), "C06: blocked receive not completed by an arriving send");
         } else if peer_killed {
             assert!(is_err(r.code), "C10/C11: blocked receive not released with an error by close/disconnect");
         } else if is_timed(outer_k) {
@@ -206,7 +206,7 @@ pub fn blocked<T: Payload + 'static>(
             let a = cx.abs();
             assert!(a.qlen <= cap, "C08: buffer longer than capacity");
             assert!(
-                cx.got[1] == 1 || a.qlen >= 1,
+                cx.got[if T::TAGGED { 1 } else { 0 }] >= 1 || a.qlen >= 1,
                 "C08/C01: send reported success but the value is nowhere"
             );
         } else {
@@ -312,7 +312,7 @@ pub fn async_waiter<T: Payload + 'static>(cap: usize, send_side: bool, peer_k: u
     let killed = (pc == CLOSER && p.code == R_OK) || pc == LASTDROP;
     if send_side && pc == RECEIVERISH {
         assert!(moved, "C06/C14: receive found nothing although a send future was pending");
-        assert!(cx.order[0] == if prefilled { 3 } else { 1 }, "C02: receive did not obtain the oldest value");
+        assert!(!T::TAGGED || cx.order[0] == if prefilled { 3 } else { 1 }, "C02: receive did not obtain the oldest value");
     }
     if !send_side && pc == SENDERISH {
         assert!(p.code == R_OK, "C08/C14: send refused although a receive future was pending");
@@ -329,7 +329,7 @@ pub fn async_waiter<T: Payload + 'static>(cap: usize, send_side: bool, peer_k: u
         if send_side {
             assert!(r.code == R_OK, "C06: pending send future not completed after a receiver took a value");
         } else {
-            assert!(r.code == R_OK && r.tag == 2, "C06/C04: pending receive future did not yield the sent value");
+            assert!(r.code == R_OK && (!T::TAGGED || r.tag == 2), "C06/C04: pending receive future did not yield the sent value");
         }
     } else if killed {
         assert!(is_err(r.code), "C10/C11: pending future not released with an error by close/disconnect");
@@ -376,7 +376,7 @@ pub fn repoll_done<T: Payload + 'static>(send_side: bool) {
 /// stage: 0 never polled, 1 pending and listed, 2 pending but claimed by a peer that
 /// finishes (fin = 0 hand-off, 1 terminate) at ABW site `site` while Drop waits,
 /// 3 completed by a peer but never re-polled, 4 completed and observed Ready.
-pub fn future_drop<T: Payload + 'static>(cap: usize, send_side: bool, stage: u8, site: u16, fin: u8) {
+pub fn future_drop<T: Payload + 'static>(cap: usize, send_side: bool, stage: u8, site: u16, fin: u8, nth: u8) {
     sym_env(0, 0, 0);
     let mut cx = Ctx::<T>::new(Some(cap));
     cx.install();
@@ -412,7 +412,7 @@ pub fn future_drop<T: Payload + 'static>(cap: usize, send_side: bool, stage: u8,
             delivered_to_future = true;
             act(A_FINISH_SEND).tag(2)
         };
-        cx.inject(0, 0, site, 1, fin_act);
+        cx.inject_nth(0, 0, site, nth, 1, fin_act);
     }
     if stage == 3 || stage == 4 {
         let p = step(&mut cx, 1, act(if send_side { A_TRY_RECV } else { A_TRY_SEND }).tag(2));
@@ -570,8 +570,8 @@ fn seq_step<T: Payload + 'static>(cx: &mut Ctx<T>, sp: &mut Spec, k: u8, i: usiz
     // ---- preconditions: what a single thread may legally call ----
     let ls = live_s(cx);
     let lr = live_r(cx);
-    let sf_live = cx.sf[0].is_some() || cx.sf[1].is_some();
-    let rf_live = cx.rf[0].is_some() || cx.rf[1].is_some() || cx.stream.is_some();
+    let sf_live = cx.sf[0].is_some() || cx.sf[1].is_some() || cx.sf[2].is_some();
+    let rf_live = cx.rf[0].is_some() || cx.rf[1].is_some() || cx.rf[2].is_some() || cx.stream.is_some();
     match k {
         A_SEND => kani::assume(ls > 0 && !sp.send_would_wait()),
         A_RECV => kani::assume(lr > 0 && !sp.recv_would_wait()),
@@ -612,7 +612,7 @@ fn seq_step<T: Payload + 'static>(cx: &mut Ctx<T>, sp: &mut Spec, k: u8, i: usiz
     let exp = sp.apply(a);
     let got = step(cx, 0, a);
     assert!(got.code == exp.code, "C18: call result differs from the reference model");
-    if exp.code == R_OK && class_of(k) == RECEIVERISH || k == A_ARECV_POLL || k == A_STREAM_POLL || k == A_STREAM_START {
+    if T::TAGGED && (exp.code == R_OK && class_of(k) == RECEIVERISH || k == A_ARECV_POLL || k == A_STREAM_POLL || k == A_STREAM_START) {
         assert!(got.tag == exp.tag, "C18/C02: received value differs from the reference model");
     }
     if exp.code == R_COUNT {
@@ -664,7 +664,7 @@ pub fn seqc<T: Payload + 'static>(cap: Option<usize>, ops: &[(u8, u8, u8, u8)]) 
     assert!(cx.order_len == sp.order_len, "C01: number of values received differs from the reference model");
     let mut j = 0;
     while j < ORDER_MAX {
-        if j < sp.order_len {
+        if T::TAGGED && j < sp.order_len {
             assert!(cx.order[j] == sp.order[j], "C02: order of received values differs from the reference model");
         }
         j += 1;
@@ -672,8 +672,10 @@ pub fn seqc<T: Payload + 'static>(cap: Option<usize>, ops: &[(u8, u8, u8, u8)]) 
     kani::cover!(true, "sequence is legal");
     cx.sf[0] = None;
     cx.sf[1] = None;
+    cx.sf[2] = None;
     cx.rf[0] = None;
     cx.rf[1] = None;
+    cx.rf[2] = None;
     cx.stream = None;
     // values still owned by the model's buffer are destroyed with the channel
     epilogue(&mut cx, ops.len() as u8);
@@ -732,7 +734,7 @@ pub fn poll_site<T: Payload + 'static>(cap: usize, send_side: bool, site: u16, p
 
 /// split-phase peer around a re-poll: the peer has claimed the pending future (popped it under
 /// the lock); the future is polled with the same / another waker; the peer finishes at `site`.
-pub fn poll_split<T: Payload + 'static>(send_side: bool, diff: bool, site: u16, fin: u8) {
+pub fn poll_split<T: Payload + 'static>(send_side: bool, diff: bool, site: u16, fin: u8, nth: u8) {
     sym_env(0, 0, 1);
     let mut cx = Ctx::<T>::new(Some(0));
     cx.install();
@@ -755,7 +757,7 @@ pub fn poll_split<T: Payload + 'static>(send_side: bool, diff: bool, site: u16, 
     let w = if diff { 1 } else { 0 };
     if diff {
         // the poll must wait for the owner inside async_blocking_wait: the peer finishes there
-        cx.inject(0, 0, site, 1, fin_act);
+        cx.inject_nth(0, 0, site, nth, 1, fin_act);
         let r = step(&mut cx, 0, act(poll).w(w));
         assert!(model::fired(0), "C07: poll returned while a peer still owned the future's signal");
         if fin == 1 {
@@ -896,7 +898,10 @@ pub fn drain_state<T: Payload + 'static>(cap: usize, nbuf: usize, n_async: usize
         assert!(r.code == R_PENDING);
         i += 1;
     }
-    cx.vec = Vec::with_capacity(prior + spare);
+    if prior + spare > 0 {
+        // (assigning a fresh *empty* Vec over the field trips a Kani constant-codegen artefact, see DESIGN 9)
+        cx.vec = Vec::with_capacity(prior + spare);
+    }
     let mut i = 0;
     while i < prior {
         cx.vec.push(T::make(6 + i as u8));
